@@ -355,11 +355,17 @@ def route_removal(state: VRPState, rng: Random, n_routes: int = 1) -> VRPState:
     n = min(n_routes, len(non_empty))
     to_remove_vehicles = rng.sample(non_empty, n)
 
+    removed: set[int] = set()
     for v in to_remove_vehicles:
-        state.unassigned.update(state.routes[v])
+        removed.update(state.routes[v])
         state.routes[v] = []
-        state.arrival_times[v] = []
 
+    # Multi-vehicle customers may also sit on other routes, take them off everywhere
+    for v in range(len(state.routes)):
+        state.routes[v] = [c for c in state.routes[v] if c not in removed]
+
+    state.unassigned.update(removed)
+    state.update_arrival_times()
     return state
 
 
